@@ -111,6 +111,7 @@ PROPS = {
     "C09": {"tags": ALL, "ppref": ("C09",), "batches": [
         B("c09", 600, 15000, step=True, kinds_wanted=[10, 13])]},
     "C10": {"tags": [7, 8], "ppref": ("C10",), "batches": [B("stepall", 400, 10000, step=True), B("mixed", 200, 5000)]},
+    "C11": {"tags": [], "ppref": ("C11",), "batches": [B("mixed", 400, 10000, tags=[]), B("c07", 300, 6000, tags=[])]},
     "C12": {"tags": [], "ppref": ("C12",), "batches": [], "extra": [keys_engine]},
     "C13": {"tags": [], "ppref": ("C13",), "batches": [], "extra": [mouse_engine]},
     "C14": {"tags": [4], "ppref": ("C14",), "batches": [B("c14", 600, 15000), B("mixed", 200, 5000)]},
